@@ -650,19 +650,22 @@ def judge_syscalls(case, root, calls):
             continue
         if kind == "read":
             continue
-        full = os.path.normpath(os.path.join(cwd, path))
-        dirn, name = os.path.dirname(full), os.path.basename(full)
+        if b"/" not in path:
+            dirn, name = cwd, path                      # an entry of the current directory (also `..`)
+        else:
+            full = os.path.normpath(os.path.join(cwd, path))
+            dirn, name = os.path.dirname(full), os.path.basename(full)
         fine = out_abs is not None and os.path.realpath(dirn) == out_abs
         if kind == "write":
             fine = fine and (name in allowed or bool(IMPL_RE.match(name)))
-            mutating = any(f in raw for f in ("O_CREAT", "O_TRUNC", "O_APPEND")) or raw.startswith("creat")
+            mutating = ok and (any(f in raw for f in ("O_CREAT", "O_TRUNC", "O_APPEND")) or raw.startswith("creat"))
             if not fine:
                 (bad if mutating else sus).append(
                     (f"syscall-write-{name.hex()[:40]}", f"{raw[:160]} in cwd {os.path.relpath(cwd, root)!r}: not an own output of the run"))
         elif kind in ("unlink", "rmdir"):
             fine = fine and bool(IMPL_RE.match(name)) and bool(case["opts"]["c"])
             if not fine:
-                bad.append((f"syscall-remove-{name.hex()[:40]}", f"{raw[:160]} in cwd {os.path.relpath(cwd, root)!r}: not a stale implementation file"))
+                (bad if ok else sus).append((f"syscall-remove-{name.hex()[:40]}", f"{raw[:160]} in cwd {os.path.relpath(cwd, root)!r}: not a stale implementation file"))
         else:
             bad.append((f"syscall-{raw.split('(')[0]}", f"unexpected file-system call {raw[:160]}"))
     return bad, [t for _, t in sus]
